@@ -2,7 +2,8 @@
    Only restatements; proofs are in C14/Proofs*.v. *)
 From Coq Require Import List NArith Bool String Ascii.
 From T4V Require Import Base.Str C14.Model C14.ProofsContent C14.ProofsCards C14.ProofsCase
-  C14.ProofsSplit C14.ProofsBlocks C14.ProofsCell C14.ProofsFront C14.ProofsNumber.
+  C14.ProofsSplit C14.ProofsBlocks C14.ProofsCell C14.ProofsFront C14.ProofsNumber
+  C14.ProofsDeck C14.ProofsCell2 C14.ProofsMeta C14.ProofsExpand C14.Exec.
 Import ListNotations.
 Open Scope string_scope.
 
@@ -235,7 +236,7 @@ Proof. split; reflexivity. Qed.
    C14_cards_layout: the three lists of card contents are the cards' tokens
    joined by single blanks -- independent of blanks, tabs, continuation
    breaks, comment lines, $ and & trailers and blank delimiter lines *)
-Theorem C14_front_layout :
+Theorem C14_front_layout_plain :
   forall (d : deck_layout) (ccs : list lcard) (ctail : list string) (scs : list lcard)
          (stail : list string) (dcs : list lcard) (dtail : list string),
   deck_ok d -> first_word_message (deck_text d) = Some false ->
@@ -249,7 +250,7 @@ Theorem C14_front_layout :
   front (deck_text d) =
   Ok (map card_content_form ccs, map card_content_form scs, map card_content_form dcs).
 Proof. exact front_layout. Qed.
-Print Assumptions C14_front_layout.
+Print Assumptions C14_front_layout_plain.
 
 (* non-vacuity: the two cards of C14_cards_layout_nonvacuous as surface block *)
 Definition ex_front : deck_layout :=
@@ -356,3 +357,229 @@ Proof.
   - right; right; reflexivity.
   - left; discriminate.
 Qed.
+
+(* ==== deepening round ==== *)
+
+(* get_block_positions for every combination: message block or not, final
+   newline (then any run of blank lines) or not *)
+Theorem C14_blocks_layout_any :
+  forall (msg : option (list string * list string)) (fin : bool) (d : deck_layout),
+  msg_ok msg -> deck_ok d ->
+  first_word_message (full_text msg fin d) = Some (message_flag msg) ->
+  blocks (full_text msg fin d) = Ok (expected_blocks msg fin d).
+Proof. exact blocks_layout_any. Qed.
+Print Assumptions C14_blocks_layout_any.
+
+(* the whole text front end on ANY laid-out deck (no final-newline hypothesis,
+   optional message block): the card contents of the three blocks are the
+   cards' tokens joined by single blanks *)
+Theorem C14_front_layout : forall L : laid_deck,
+  laid_ok L -> front (laid_text L) = Ok (laid_contents L).
+Proof. exact front_layout_any. Qed.
+Print Assumptions C14_front_layout.
+
+(* metamorphic form: two layouts of the same abstract deck (same tokens card by
+   card) -- whatever their blanks, tabs, continuation breaks, comment lines,
+   trailers, delimiter lines, message block, final newline -- give the same
+   token lists to every consumer of the front end *)
+Theorem C14_front_metamorphic : forall L1 L2 : laid_deck,
+  laid_ok L1 -> laid_ok L2 -> laid_tokens L1 = laid_tokens L2 ->
+  front_tokens (laid_text L1) = front_tokens (laid_text L2).
+Proof. exact front_metamorphic. Qed.
+Print Assumptions C14_front_metamorphic.
+
+(* ... and when the tokens differ only in letter case, the same lists after
+   lower() (what the case-insensitive consumers compare) *)
+Theorem C14_front_metamorphic_case : forall L1 L2 : laid_deck,
+  laid_ok L1 -> laid_ok L2 -> lower_toks (laid_tokens L1) = lower_toks (laid_tokens L2) ->
+  map_res lower_toks (front_tokens (laid_text L1)) = map_res lower_toks (front_tokens (laid_text L2)).
+Proof. exact front_metamorphic_case. Qed.
+Print Assumptions C14_front_metamorphic_case.
+
+(* through the surface split: name, transformation, lower-cased mnemonic and
+   parameter list of a surface card do not depend on its layout nor on the
+   case of the mnemonic *)
+Theorem C14_surface_metamorphic :
+  forall (ls ls' : list pline) (bc ds mn mn' p : string) (ps : list string),
+  Forall line_ok ls -> Forall line_ok ls' ->
+  flat_map ptoks ls = (bc ++ ds) :: mn :: p :: ps -> flat_map ptoks ls' = (bc ++ ds) :: mn' :: p :: ps ->
+  lower mn = lower mn' ->
+  all_chars is_bc bc = true -> all_chars is_digit ds = true -> ds <> "" ->
+  all_chars is_mnemo mn = true -> mn <> "" -> all_chars is_mnemo mn' = true -> mn' <> "" ->
+  surf_parsed (content (map line_text ls)) = surf_parsed (content (map line_text ls')) /\
+  surf_parsed (content (map line_text ls)) = Ok (bc ++ ds, [], lower mn, p :: ps).
+Proof.
+  intros. split; [now apply (surface_metamorphic ls ls' bc ds mn mn' p ps)|now apply surface_card_parsed].
+Qed.
+Print Assumptions C14_surface_metamorphic.
+
+(* cellcard.split on the content Card.content renders for a void cell and for
+   a cell with material and density (density without letters) *)
+Theorem C14_split_cell_rendered :
+  forall (bl br : bool) (name m rho : string) (gs : list string) (d : ascii) (o : string) (os : list string),
+  all_chars is_digit name = true -> name <> "" ->
+  gs <> [] -> Forall geom_token gs -> is_opt_start d = true ->
+  (all_chars (ceq "0") m = true -> m <> "" ->
+   cell_split (pad bl ++ join " " (name :: m :: gs ++ String d o :: os) ++ pad br)
+   = Ok (pad bl ++ name, " " ++ m, " " ++ join " " gs ++ " ", join " " (String d o :: os) ++ pad br)) /\
+  (all_chars is_digit m = true -> all_chars (ceq "0") m = false ->
+   all_chars dens_char rho = true -> all_chars nostart rho = true -> rho <> "" ->
+   cell_split (pad bl ++ join " " (name :: m :: rho :: gs ++ String d o :: os) ++ pad br)
+   = Ok (pad bl ++ name, " " ++ m ++ " " ++ rho, " " ++ join " " gs ++ " ",
+         join " " (String d o :: os) ++ pad br)).
+Proof.
+  intros bl br name m rho gs d o os Hn Nn Ng Hg Hd. split.
+  - intros Hm Nm. now apply cell_split_rendered_void.
+  - intros Hm Hm0 Hr Hrs Nr. now apply cell_split_rendered_material.
+Qed.
+Print Assumptions C14_split_cell_rendered.
+
+(* through cellcard.split and the option tokenisation: a void cell card laid
+   out in any way, with options in any letter case *)
+Theorem C14_cell_metamorphic :
+  forall (ls ls' : list pline) (name m : string) (gs : list string)
+         (d : ascii) (o : string) (os : list string) (d' : ascii) (o' : string) (os' : list string),
+  Forall line_ok ls -> Forall line_ok ls' ->
+  flat_map ptoks ls = (name :: m :: gs ++ String d o :: os)%list ->
+  flat_map ptoks ls' = (name :: m :: gs ++ String d' o' :: os')%list ->
+  lower (join " " (String d o :: os)) = lower (join " " (String d' o' :: os')) ->
+  all_chars is_digit name = true -> name <> "" ->
+  all_chars (ceq "0") m = true -> m <> "" ->
+  gs <> [] -> Forall geom_token gs -> is_opt_start d = true -> is_opt_start d' = true ->
+  cell_parsed (content (map line_text ls)) = cell_parsed (content (map line_text ls')) /\
+  cell_parsed (content (map line_text ls))
+  = Ok ([name], [m], " " ++ join " " gs ++ " ", opt_tokens (join " " (String d o :: os))).
+Proof.
+  intros. split; [now apply (void_cell_metamorphic ls ls' name m gs d o os d' o' os')|
+                  now apply void_cell_card_parsed].
+Qed.
+Print Assumptions C14_cell_metamorphic.
+
+(* the same for a cell with material and density *)
+Theorem C14_material_cell_parsed :
+  forall (ls : list pline) (name m rho : string) (gs : list string) (d : ascii) (o : string) (os : list string),
+  Forall line_ok ls -> flat_map ptoks ls = (name :: m :: rho :: gs ++ String d o :: os)%list ->
+  all_chars is_digit name = true -> name <> "" ->
+  all_chars is_digit m = true -> all_chars (ceq "0") m = false ->
+  all_chars dens_char rho = true -> all_chars nostart rho = true -> rho <> "" ->
+  gs <> [] -> Forall geom_token gs -> is_opt_start d = true ->
+  cell_parsed (content (map line_text ls))
+  = Ok ([name], [m; rho], " " ++ join " " gs ++ " ", opt_tokens (join " " (String d o :: os))).
+Proof. exact material_cell_card_parsed. Qed.
+Print Assumptions C14_material_cell_parsed.
+
+(* LIKE n BUT: number, blanks, like, anything, the last but, options *)
+Theorem C14_split_likebut :
+  forall (w0 ds w1 : string) (l1 l2 l3 l4 : ascii) (mid : string) (b1 b2 b3 : ascii) (rest : string),
+  all_chars is_ws w0 = true -> all_chars is_digit ds = true -> ds <> "" ->
+  all_chars is_ws w1 = true -> w1 <> "" ->
+  lower (String l1 (String l2 (String l3 (String l4 "")))) = "like" ->
+  is_but b1 b2 b3 -> has_but rest = false ->
+  likebut_split (w0 ++ ds ++ w1 ++ String l1 (String l2 (String l3 (String l4
+                   (mid ++ String b1 (String b2 (String b3 rest)))))))
+  = Ok (w0 ++ ds,
+        w1 ++ String l1 (String l2 (String l3 (String l4 (mid ++ String b1 (String b2 (String b3 "")))))),
+        rest).
+Proof. exact likebut_split_shape. Qed.
+Print Assumptions C14_split_likebut.
+
+(* the option string may end with the blank Card.content leaves behind *)
+Theorem C14_options_trailing_blank : forall s : string, opt_tokens (s ++ " ") = opt_tokens s.
+Proof. exact opt_tokens_trailing_blank. Qed.
+Print Assumptions C14_options_trailing_blank.
+
+(* non-vacuity: the deck of C14_front_layout_nonvacuous without final newline
+   and behind a message block; a LIKE BUT card; rendered cell cards *)
+Definition ex_laid (msg : option (list string * list string)) (fin : bool) : laid_deck :=
+  {| l_msg := msg; l_fin := fin; l_deck := ex_front;
+     l_cells := [[([], mk_pline [("", "1"); (" ", "0"); ("  ", "-1")] "" "")]]; l_ctail := [];
+     l_surfs := [ex_c1; ex_c2]; l_stail := ["c end"];
+     l_data := [[(["c m"], mk_pline [("", "nps"); (String tab "", "10")] " " "$ x")]]; l_dtail := [] |}.
+
+Example C14_front_metamorphic_nonvacuous :
+  front (laid_text (ex_laid None false)) = Ok (["1 0 -1"], ["1 so 5.0 "; " 2 PX 1"], ["nps 10 "]) /\
+  front (laid_text (ex_laid (Some (["MESSAGE: outp=x"; "     runtpe=r"], [" "])) true))
+  = Ok (["1 0 -1"], ["1 so 5.0 "; " 2 PX 1"], ["nps 10 "]) /\
+  front_tokens (laid_text (ex_laid None false))
+  = Ok ([["1"; "0"; "-1"]], [["1"; "so"; "5.0"]; ["2"; "PX"; "1"]], [["nps"; "10"]]) /\
+  first_word_message (laid_text (ex_laid (Some (["MESSAGE: outp=x"; "     runtpe=r"], [" "])) true)) = Some true /\
+  likebut_split " 7  LiKe 3 bUt  TRCL=(1 0 0)" = Ok (" 7", "  LiKe 3 bUt", "  TRCL=(1 0 0)") /\
+  cell_split (pad true ++ join " " ("12" :: "0" :: ["(1:-2)"; "#(3"; "4)"] ++ "*FILL=2" :: ["imp:n=1"]) ++ pad true)
+  = Ok (" 12", " 0", " (1:-2) #(3 4) ", "*FILL=2 imp:n=1 ").
+Proof. repeat split; reflexivity. Qed.
+
+Ltac c14_solve :=
+  repeat (cbn; match goal with
+         | |- _ /\ _ => split
+         | |- Forall _ [] => constructor
+         | |- Forall _ (_ :: _) => constructor
+         | |- True => exact I
+         | |- _ <> _ => discriminate
+         | |- _ = _ => reflexivity
+         | |- "" = "" \/ _ => left; reflexivity
+         | |- _ \/ (exists c r, String ?x ?y = String c r /\ _) => right; exists x, y; split; reflexivity
+         | |- (_ = true) \/ (_ = true) => first [left; reflexivity | right; reflexivity]
+         | |- comment_lines _ => unfold comment_lines
+         | |- line_ok _ => unfold line_ok, item_ok, gap_nonempty, trailer_ok
+         | |- not_c _ => unfold not_c
+         end).
+
+Example C14_laid_ok_nonvacuous :
+  laid_ok (ex_laid None false) /\
+  laid_ok (ex_laid (Some (["MESSAGE: outp=x"; "     runtpe=r"], [" "])) true).
+Proof.
+  split; unfold laid_ok, msg_ok, deck_ok, lines_ok, nonblank_lines, blank_lines, breaks_ok,
+           comment_lines, line_ok, not_c, item_ok, gap_nonempty, trailer_ok; c14_solve.
+Qed.
+
+(* ---- data-card shorthand (token level) ---- *)
+
+(* expand_data_card, for ANY reading of the numbers (V, rd = to_float on a
+   plain entry, lin = the interpolates, mul = the product): after an entry
+   that reads as v,
+     nR   gives the same values as the entry written n more times,
+     nJ   the same as n single J,
+     nI u the same as the n interpolates written out followed by u,
+     xM   the same as the product written out;
+   shorthand letters in either case (tokens are lower-cased first). Stated
+   for expected=None (the whole card is consumed), values only: the count of
+   consumed tokens differs by construction. *)
+Theorem C14_shorthand_invariant :
+  forall (V : Type) (rd : string -> option V) (lin : V -> V -> nat -> list V) (mul : V -> V -> V)
+         (acc : list (option V)) (k : nat) (ts : list string),
+  (forall t pre n x v,
+     kind_of (lower t) = KRep pre -> count_of pre = Some n -> plain V rd x v ->
+     vals V (run V rd lin mul None (Some v :: acc) k (t :: ts))
+     = vals V (run V rd lin mul None (Some v :: acc) k (repeat x n ++ ts)%list)) /\
+  (forall t pre n,
+     kind_of (lower t) = KJump pre -> count_of pre = Some n ->
+     vals V (run V rd lin mul None acc k (t :: ts))
+     = vals V (run V rd lin mul None acc k (repeat "j" n ++ ts)%list)) /\
+  (forall t pre n lo u hi xs,
+     kind_of (lower t) = KInt pre -> count_of pre = Some n -> plain V rd u hi ->
+     Forall2 (plain V rd) xs (lin lo hi n) ->
+     vals V (run V rd lin mul None (Some lo :: acc) k (t :: u :: ts))
+     = vals V (run V rd lin mul None (Some lo :: acc) k (xs ++ u :: ts)%list)) /\
+  (forall t c pre f v x,
+     kind_of (lower t) = KMul (String c pre) -> rd (String c pre) = Some f -> plain V rd x (mul v f) ->
+     vals V (run V rd lin mul None (Some v :: acc) k (t :: ts))
+     = vals V (run V rd lin mul None (Some v :: acc) k (x :: ts))).
+Proof.
+  intros V rd lin mul acc k ts. repeat split; intros.
+  - eapply expand_repeat; eauto.
+  - eapply expand_jump; eauto.
+  - eapply expand_interpolate; eauto.
+  - eapply expand_multiply; eauto.
+Qed.
+Print Assumptions C14_shorthand_invariant.
+
+(* non-vacuity at exact rationals: 1 2R 2I 7 3M J  =  1 1 1 3 5 7 21 j *)
+Example C14_shorthand_invariant_nonvacuous :
+  kind_of (lower "2R") = KRep "2" /\ count_of "2" = Some 2 /\
+  plain QArith_base.Q rd_int "1" (QArith_base.inject_Z (BinNums.Zpos BinNums.xH)) /\ kind_of (lower "2I") = KInt "2" /\
+  kind_of (lower "3M") = KMul "3" /\ kind_of (lower "J") = KJump "" /\
+  vals _ (expand _ rd_int lin_q mul_q None ["1"; "2R"; "2I"; "7"; "3M"; "J"])
+  = vals _ (expand _ rd_int lin_q mul_q None ["1"; "1"; "1"; "3"; "5"; "7"; "21"; "j"]) /\
+  expand_q None ["1"; "2R"; "2I"; "7"; "3M"; "J"]
+  = ser_list ["1/1"; "1/1"; "1/1"; "3/1"; "5/1"; "7/1"; "21/1"; "J"] ++ sep2 ++ "6".
+Proof. repeat split; vm_compute; reflexivity. Qed.
